@@ -159,6 +159,7 @@ type pathCtx struct {
 	goq       []func() // pending goroutine bodies
 	fresh     int
 	now       value
+	hashApps  []hashApp
 	tier      int
 }
 
